@@ -16,12 +16,12 @@ import (
 )
 
 type variant struct {
-	Name   string
-	Kill   bool   // true: must be reported; false: must stay quiet
-	File   string // repo-relative
-	Old    string
-	New    string
-	Rule   string // for kill variants: rule id expected in the report
+	Name string
+	Kill bool   // true: must be reported; false: must stay quiet
+	File string // repo-relative
+	Old  string
+	New  string
+	Rule string // for kill variants: rule id expected in the report
 	// Second optional substitution in another (or the same) file
 	File2, Old2, New2 string
 }
